@@ -8,7 +8,9 @@ m['checks']=checks
 ids=[json.loads(l)['id'] for l in open(V+'/properties.jsonl')]
 claimed=[c['property_id'] for c in checks]
 drivers=' '.join('drv_'+c.lower() for c in claimed)
-m['setup_cmd']="/venv/bin/python harness/extract_tables.py && cd lean && lake build OdmlModel %s" % drivers
+targets=' '.join('OdmlModel.Props.%s' % c for c in claimed)
+m['setup_cmd']="/venv/bin/python harness/extract_tables.py && cd lean && lake build %s %s" % (targets, drivers)
+open(V+'/lean/OdmlModel.lean','w').write(''.join('import OdmlModel.Props.%s\n' % c for c in claimed))
 keep={n['property_id']:n for n in m.get('not_applicable',[]) if n['property_id'] not in claimed and not n['reason'].startswith('not built yet')}
 m['not_applicable']=[keep.get(i, {"property_id": i, "reason": "not built yet: the Lean model, theorems and correspondence for this property are planned (DESIGN.md section 8) but not committed; nothing is claimed"}) for i in ids if i not in claimed]
 json.dump(m, open(V+'/MANIFEST.json','w'), indent=1)
